@@ -42,7 +42,7 @@ def load_spec(prop):
         h.setdefault("kind", "proof")
         h.setdefault("timeout", {"quick": 360, "thorough": 1200})
         h.setdefault("mem_gb", 10)
-        h.setdefault("cbmc_args", list(DEFAULT_CBMC_ARGS))
+        h.setdefault("cbmc_args", list(DEFAULT_CBMC_ARGS) + list(spec.get("cbmc_args_extra", [])))
         h.setdefault("kani_args", [])
         h.setdefault("role", h["name"])
     return spec
@@ -130,7 +130,10 @@ def _set_mtime(path, t):
 def prepare_tree(dst, spec, misses):
     os.makedirs(dst, exist_ok=True)
     subprocess.run(
-        ["rsync", "-a", "--delete", "--exclude", "/target", "--exclude", "/.git", "--exclude", "/data", "--exclude", "/fuzz/target", REPO + "/", dst + "/"],
+        # no -t, --checksum: a file whose *content* changed gets a fresh mtime, an unchanged one keeps
+        # the copy's mtime; cargo's mtime fingerprints then follow content even when the source tree
+        # is switched to one with older timestamps (VERIF_REPO, git checkout)
+        ["rsync", "-rlpgoD", "--checksum", "--delete", "--exclude", "/target", "--exclude", "/.git", "--exclude", "/data", "--exclude", "/fuzz/target", REPO + "/", dst + "/"],
         check=True,
     )
     appended = {}
@@ -150,6 +153,17 @@ def prepare_tree(dst, spec, misses):
             for d, _ in decls:
                 f.write(f"\n{GUARD}\n{d}\n")
         _set_mtime(parent, max([orig_m] + [m for _, m in decls]))
+    # capacity of the bounded stand-in containers (per spec: a stated bound)
+    cap = spec.get("coll_cap")
+    collp = os.path.join(dst, "src", "verif_coll.rs")
+    if cap and os.path.exists(collp):
+        t = open(collp).read()
+        lst = ", ".join(str(i) for i in range(cap))
+        t = re.sub(r"pub const CAP: usize = \d+; // VERIF-CAP", f"pub const CAP: usize = {cap}; // VERIF-CAP", t)
+        t = re.sub(r"\[[0-9, ]+\]\)(;?) // VERIF-CAP-LIST", lambda m: f"[{lst}]){m.group(1)} // VERIF-CAP-LIST", t)
+        m = os.path.getmtime(collp)
+        open(collp, "w").write(t)
+        _set_mtime(collp, max(m, os.path.getmtime(os.path.join(HARNESS_DIR, spec["property"], "spec.py"))))
     # import redirection (only active under cfg(kani)); a pattern that no longer matches is
     # recorded and left alone: the build then uses the real item (slower, never unsound)
     for rd in spec.get("redirects", []):
@@ -317,6 +331,8 @@ def run_harness(spec, h, tier, keep_logs):
     misses = []
     res = {"name": h["name"], "role": h["role"], "kind": h["kind"]}
     timeout = h["timeout"][tier] if isinstance(h["timeout"], dict) else h["timeout"]
+    if os.environ.get("VERIF_TIMEOUT"):
+        timeout = int(os.environ["VERIF_TIMEOUT"])
     with Slot("kani") as slot:
         ensure_target(slot)
         prepare_tree(slot.tree, spec, misses)
@@ -344,7 +360,11 @@ def run_harness(spec, h, tier, keep_logs):
             cmd2 = kani_cmd(h, slot, playback=True)
             rc2, to2, wall2 = run_limited(cmd2, slot.tree, timeout * 2, h["mem_gb"], env, logpath2)
             text2 = open(logpath2, errors="replace").read()
-            res["playbacks"] = [p for p in parse_playbacks(text2) if p["kind"] != "cover"]
+            # Kani de-duplicates playback tests by value: an assignment that violates a check and
+            # also satisfies a cover point may be printed once, labelled as the cover.  Keep the
+            # cover-labelled ones as fallback candidates; the native replay decides.
+            pbs = parse_playbacks(text2)
+            res["playbacks"] = [p for p in pbs if p["kind"] != "cover"] + [p for p in pbs if p["kind"] == "cover"]
             res["wall_s"] = round(wall + wall2, 1)
     return res
 
@@ -503,8 +523,8 @@ def check_property(prop, tier, only, jobs, seed):
         # replay every solver assignment that targets an unknown failing check
         r["replay_outcomes"] = []
         confirmed = False
-        pbs = [p for p in r.get("playbacks", []) if p["desc"] in unknown] or [p for p in r.get("playbacks", [])]
-        for pb in pbs[:4]:
+        pbs = [p for p in r.get("playbacks", []) if p["desc"] in unknown] + [p for p in r.get("playbacks", []) if p["desc"] not in unknown]
+        for pb in pbs[:8]:
             path = write_replay_file(prop, h, pb, spec)
             rep, msg = native_replay(spec, h["name"], h["path"], path)
             r["replay_outcomes"].append({"file": path, "failed_check": pb["desc"], "reproduced": rep, "native_message": msg})
